@@ -170,6 +170,36 @@ inductive Outcome
   | nilInterop (c : Cache)   -- success, a typed-nil contract was pushed (state unchanged)
   | fail                     -- the service returns an error / panics inside wagon: the transaction fails
 
+/-- the cache a successful call leaves behind -/
+def Outcome.cache? : Outcome → Option Cache
+  | .ok c => some c
+  | .nilInterop c => some c
+  | .fail => none
+
+/-- all addresses named by the call are 20 bytes (`common.Address`) -/
+def Sys.WF : Sys → Prop
+  | .neoPut ctx _ _ => ctx.length = 20
+  | .neoDelete ctx _ => ctx.length = 20
+  | .neoCreate addr _ => addr.length = 20
+  | .neoMigrate self addr _ => self.length = 20 ∧ addr.length = 20
+  | .neoDestroy self => self.length = 20
+  | .appCall addr => addr.length = 20
+  | .wasmWrite self _ _ => self.length = 20
+  | .wasmDelete self _ => self.length = 20
+  | .wasmCreate addr _ => addr.length = 20
+  | .wasmMigrate self addr _ => self.length = 20 ∧ addr.length = 20
+  | .wasmDestroy self => self.length = 20
+  | .addDestroyed addr => addr.length = 20
+  | .removeDestroyed addr => addr.length = 20
+
+/-- the call is a storage write executed by (with the storage context of) `a` -/
+def Sys.writesAs (a : Bytes) : Sys → Prop
+  | .neoPut ctx _ _ => ctx = a
+  | .neoDelete ctx _ => ctx = a
+  | .wasmWrite self _ _ => self = a
+  | .wasmDelete self _ => self = a
+  | _ => False
+
 def isPresent (c : Cache) (addr : Bytes) : Bool :=
   match getContract c addr with
   | .present _ => true
@@ -244,6 +274,21 @@ def Tx.run (v : Variant) (track : Nat) (c : Cache) : Tx → Cache × TxResult
     | .present _ => (c0.commit, .ok)
     | .absent => ((putContract c0 addr val).commit, .ok)
   | .blockCommit => (c.step (.bcommit false), .ok)
+
+def Tx.WF : Tx → Prop
+  | .invoke _ calls => ∀ s ∈ calls, s.WF
+  | .deploy _ addr _ => addr.length = 20
+  | .blockCommit => True
+
+/-- the transaction does not contain the operator's `removeDestroyedContract(a)` -/
+def Tx.noRemove (a : Bytes) : Tx → Prop
+  | .invoke _ calls => ∀ s ∈ calls, s ≠ .removeDestroyed a
+  | _ => True
+
+/-- the transaction contains no storage write executed in the name of `a` -/
+def Tx.noWriteAs (a : Bytes) : Tx → Prop
+  | .invoke _ calls => ∀ s ∈ calls, ¬ s.writesAs a
+  | _ => True
 
 def runTxs (v : Variant) (track : Nat) (c : Cache) (txs : List Tx) : Cache :=
   txs.foldl (fun c t => (t.run v track c).1) c
